@@ -449,6 +449,7 @@ func c34(c *engine.Ctx) {
 
 	// ---- R2
 	c34R2(c)
+	c34R6(c)
 	// ---- R3 wiring
 	n3 := 0
 	if pc := c.MustFunc("C34.R3", dlPkg, "Builder.prepareCDNPath"); pc != nil {
@@ -668,6 +669,99 @@ func c34(c *engine.Ctx) {
 	c.Floor("C34.R5", 5, n5)
 }
 
+// c34R6: the outer verifier hands hash windows to the reader in queue order and the stream
+// writer appends blocks in that order, so the queue must be ascending by offset: newVerifier
+// and verifier.update sort what they enqueue (comparator evaluated for the three order classes).
+func c34R6(c *engine.Ctx) {
+	n := 0
+	ascending := func(cl *ssa.Function, key string) {
+		names := map[int]string{-1: "<", 0: "=", 1: ">"}
+		for _, o := range []int{-1, 0, 1} {
+			res, err := engine.AbstractRun(cl, func(x, y ssa.Value) (int, bool) {
+				sym := func(v ssa.Value) string {
+					if !strings.HasSuffix(engine.Describe(v), ".Offset") {
+						return ""
+					}
+					di, dj := engine.DependsOn(v, cl.Params[0]), engine.DependsOn(v, cl.Params[1])
+					switch {
+					case di && !dj:
+						return "I"
+					case dj && !di:
+						return "J"
+					}
+					return ""
+				}
+				sx, sy := sym(x), sym(y)
+				switch {
+				case sx == "I" && sy == "J":
+					return o, true
+				case sx == "J" && sy == "I":
+					return -o, true
+				}
+				return 0, false
+			})
+			n++
+			if err != nil || res.Bool == nil {
+				c.Undecided("C34.R6", key+"/comparator/class(offset"+names[o]+")", cl.Pos(), "comparator must depend only on Offset_i vs Offset_j: %v", err)
+				continue
+			}
+			c.Check(*res.Bool == (o < 0), "C34.R6", key+"/comparator/class(offset"+names[o]+")", cl.Pos(), "Less with offset_i %s offset_j is %v; ascending offsets require %v", names[o], *res.Bool, o < 0)
+		}
+	}
+	if up := c.MustFunc("C34.R6", dlPkg, "verifier.update"); up != nil {
+		var srt ssa.CallInstruction
+		for _, call := range engine.CallsTo(up, false, "sort.SliceStable", "sort.Slice") {
+			if engine.Describe(call.Common().Args[0]) == "p:hashes" {
+				srt = call
+			}
+		}
+		enq := false
+		for _, call := range engine.CallsTo(up, false, "builtin.append") {
+			if engine.Describe(call.Common().Args[0]) == "p:v.hashes" && engine.Describe(call.Common().Args[1]) == "p:hashes" {
+				enq = true
+				n++
+				c.Check(srt != nil && engine.Dominates(srt, call), "C34.R6", "verifier.update/sorted-before-enqueue", call.Pos(), "a fetched batch of hash windows must be sorted by offset before it is appended to the queue the reader consumes in order")
+			}
+		}
+		c.Check(enq, "C34.R6", "verifier.update/enqueues", up.Pos(), "update must append the fetched windows to the queue")
+		if srt != nil {
+			if cl := closureOf(srt.Common().Args[1]); cl != nil {
+				ascending(cl, "verifier.update")
+			}
+		}
+	}
+	if nv := c.MustFunc("C34.R6", dlPkg, "newVerifier"); nv != nil {
+		var srt ssa.CallInstruction
+		for _, call := range engine.CallsTo(nv, false, "sort.SliceStable", "sort.Slice") {
+			srt = call
+		}
+		ok := false
+		if srt != nil {
+			for _, r := range engine.Returns(nv) {
+				if v := engine.StructFieldValue(r.Results[0], "hashes"); v != nil && engine.Unwrap(v) == engine.Unwrap(srt.Common().Args[0]) && engine.Dominates(srt, r) {
+					ok = true
+				}
+			}
+			if cl := closureOf(srt.Common().Args[1]); cl != nil {
+				ascending(cl, "newVerifier")
+			}
+		}
+		n++
+		c.Check(ok, "C34.R6", "newVerifier/initial-queue-sorted", nv.Pos(), "the initial queue must be the sorted copy of the given hashes")
+	}
+	if pop := c.MustFunc("C34.R6", dlPkg, "verifier.pop"); pop != nil {
+		ok := false
+		for _, r := range engine.Returns(pop) {
+			if b, isB := engine.ConstBool(engine.RetVal(r, 1)); isB && b && strings.HasPrefix(engine.Describe(engine.RetVal(r, 0)), "p:v.hashes[0]") {
+				ok = true
+			}
+		}
+		n++
+		c.Check(ok, "C34.R6", "verifier.pop/front-of-queue", pop.Pos(), "pop must hand out the front of the queue")
+	}
+	c.Floor("C34.R6", 8, n)
+}
+
 func c34R2(c *engine.Ctx) {
 	n := 0
 	vc := c.MustFunc("C34.R2", dlPkg, "cdn.verifyChunk")
@@ -733,6 +827,41 @@ func c34R2(c *engine.Ctx) {
 			}
 		}
 		c.Check(okCopy, "C34.R2", "verifyChunk/verified-window-patched-in", call.Pos(), "bytes of a window that crosses the chunk must be replaced by the verified window's bytes")
+	}
+	// the cursor: starts at the chunk offset and moves to the END of the window just handled
+	// (window.Offset + window.Limit); advancing by the window's length from wherever the cursor was
+	// skips the windows behind a chunk that starts inside a window
+	{
+		cur := engine.Args(hf.Common())[2]
+		phi, isPhi := cur.(*ssa.Phi)
+		n++
+		if !isPhi {
+			c.Fail("C34.R2", "verifyChunk/cursor", hf.Pos(), "the window cursor is not a loop variable (is %s)", engine.Describe(cur))
+		} else {
+			okInit, okStep := false, true
+			for _, e := range phi.Edges {
+				if engine.Describe(e) == "p:offset" {
+					okInit = true
+					continue
+				}
+				b, isB := e.(*ssa.BinOp)
+				if !isB || b.Op != token.ADD {
+					okStep = false
+					continue
+				}
+				unconv := func(v ssa.Value) ssa.Value {
+					if cv, ok := v.(*ssa.Convert); ok {
+						return cv.X
+					}
+					return v
+				}
+				a, d := unconv(b.X), unconv(b.Y)
+				if !((resultField(a, hf, 0, "Offset") && resultField(d, hf, 0, "Limit")) || (resultField(d, hf, 0, "Offset") && resultField(a, hf, 0, "Limit"))) {
+					okStep = false
+				}
+			}
+			c.Check(okInit && okStep, "C34.R2", "verifyChunk/cursor-moves-to-window-end", hf.Pos(), "the cursor must start at the chunk offset and continue at hash.Offset + hash.Limit of the window just verified (is %s)", engine.Describe(cur))
+		}
 	}
 	// every trip round the loop passes a verification
 	isPatch := func(i ssa.Instruction) bool {
